@@ -13,6 +13,11 @@ R-C03-pow  a class with a one-parameter generator returns ``[Cls(p * z)]``; a cl
            reduces ``z % 2``; a class that reduces ``z % N`` claims ``U**N = 1``, which is decided by
            exact Gaussian-rational matrix arithmetic where ``compute_matrix`` is a literal matrix.
 
+R-C03-ctrlorder  where nested controls are flattened (``ctrl(ctrl(A))`` -> one multi-controlled operator) the control
+           wires and the control values are each concatenated from an OUTER and a BASE source; the two concatenations
+           must list the sources in the same order, otherwise values are attached to the wrong wires and the
+           controlled operator no longer has the block matrix of its base.
+
 Only *exact* readings refute: every argument of the returned constructor is evaluated as a polynomial
 with rational coefficients in the operator's parameters (and ``z``); anything else (``mod``, ``conj``,
 other classes, several returns) is unknown.
@@ -20,11 +25,16 @@ other classes, several returns) is unknown.
 
 from __future__ import annotations
 
+import ast
+
 from .. import opfacts as F
-from ..core import Report
+from ..cfg import walk_shallow
+from ..core import Report, norm
+from ..index import FuncInfo
 
 ADJ = "R-C03-adj"
 POW = "R-C03-pow"
+CTRL = "R-C03-ctrlorder"
 
 # (iv) same class, parameters transformed otherwise.  "formula": the documented parameter map as
 # {parameter: (sign, source parameter)} — checked against the exact reading; None: not a polynomial map.
@@ -209,6 +219,166 @@ def check_pow(ix, rep, selfinv):
     return n, n_gen, n_si, n_period, n_period_proved
 
 
+# ------------------------------------------------------------------------------------------ ctrlorder
+WIRE_KW = ("control", "control_wires")
+VALUE_KW = "control_values"
+CONTROL_ATTRS = ("control_wires", "control_values", "work_wires")
+TRANSPARENT = {"array", "asarray", "cast", "cast_like", "convert_like", "Wires", "list", "tuple", "copy"}  # f(x, ...) has the element order of x
+
+
+class _Src:
+    """one operand of a concatenation: tag OUTER/BASE, its source text, and where the concatenation that placed it is written"""
+
+    __slots__ = ("tag", "text")
+
+    def __init__(self, tag, text):
+        self.tag, self.text = tag, text
+
+    def __repr__(self):
+        return f"{self.tag}:{self.text}"
+
+
+class _Seq:
+    """ordered sources of a concatenated value + the place (helper function / statement) that fixed the order"""
+
+    def __init__(self, items, origin=None):
+        self.items, self.origin = list(items), origin  # origin: (FuncInfo, ast node) of the concatenation
+
+    def tags(self):
+        return [x.tag for x in self.items]
+
+
+def _atom(e, params):
+    """OUTER: the function's own control parameter or self.control_*; BASE: <op>.control_* of another operator (op, base, self.base)"""
+    if isinstance(e, ast.Attribute) and e.attr in CONTROL_ATTRS:
+        owner = e.value
+        if isinstance(owner, ast.Name) and owner.id == "self":
+            return _Src("OUTER", norm(e))
+        if isinstance(owner, (ast.Name, ast.Attribute)):
+            return _Src("BASE", norm(e))
+        return None
+    if isinstance(e, ast.Name) and e.id in params and e.id != "self":
+        return _Src("OUTER", e.id)
+    return None
+
+
+def _func_env(ix, f: FuncInfo, env, depth):
+    """sequential reading of the simple assignments `x = expr` of a function body (into if-bodies too); an assignment whose
+    value does not resolve leaves the previous binding (`if v is None: v = [True] * n` keeps v an OUTER default)"""
+    a = f.node.args
+    params = {x.arg for x in a.posonlyargs + a.args + a.kwonlyargs}
+    env = dict(env)
+    stmts = [n for n in ast.walk(f.node) if isinstance(n, ast.Assign) and len(n.targets) == 1 and isinstance(n.targets[0], ast.Name)]
+    stmts.sort(key=lambda n: (n.lineno, n.col_offset))
+    for st in stmts:
+        s = _seq(ix, st.value, f, env, params, depth)
+        if s is not None:
+            env[st.targets[0].id] = s
+    return env, params
+
+
+def _seq(ix, e, f: FuncInfo, env, params, depth=0):
+    """expression -> _Seq of its OUTER/BASE sources in element order, or None"""
+    if isinstance(e, ast.Name) and e.id in env:
+        return env[e.id]
+    at = _atom(e, params)
+    if at is not None:
+        return _Seq([at])
+    if isinstance(e, ast.BinOp) and isinstance(e.op, ast.Add):
+        a, b = _seq(ix, e.left, f, env, params, depth), _seq(ix, e.right, f, env, params, depth)
+        if a is None or b is None:
+            return None
+        return _Seq(a.items + b.items, (f, e))
+    if isinstance(e, ast.Call) and isinstance(e.func, (ast.Name, ast.Attribute)):
+        last = e.func.attr if isinstance(e.func, ast.Attribute) else e.func.id
+        if last in ("concatenate", "hstack") and e.args and isinstance(e.args[0], (ast.List, ast.Tuple)):
+            parts = [_seq(ix, x, f, env, params, depth) for x in e.args[0].elts]
+            if any(p is None for p in parts):
+                return None
+            return _Seq([i for p in parts for i in p.items], (f, e))
+        r = ix.resolve_expr(f.module, e.func)
+        if isinstance(r, FuncInfo) and r.module is f.module and r.cls is None and depth < 1:
+            return _inline(ix, r, e, f, env, params, depth)
+        if last in TRANSPARENT and e.args and not isinstance(r, FuncInfo):
+            return _seq(ix, e.args[0], f, env, params, depth)
+    return None
+
+
+def _inline(ix, helper: FuncInfo, call, f, env, params, depth):
+    """same-module helper whose body returns a concatenation of its parameters: parameters are bound to the sequences of
+    the arguments; the return paths that resolve must agree"""
+    a = helper.node.args
+    names = [x.arg for x in a.posonlyargs + a.args]
+    henv = {}
+    for i, arg in enumerate(call.args):
+        if isinstance(arg, ast.Starred) or i >= len(names):
+            return None
+        s = _seq(ix, arg, f, env, params, depth)
+        if s is not None:
+            henv[names[i]] = s
+    for kw in call.keywords:
+        if kw.arg is None:
+            return None
+        s = _seq(ix, kw.value, f, env, params, depth)
+        if s is not None:
+            henv[kw.arg] = s
+    if len(henv) < 2:
+        return None
+    henv2, _p = _func_env(ix, helper, henv, depth + 1)
+    outs = []
+    for n in walk_shallow(helper.node):
+        if isinstance(n, ast.Return) and n.value is not None:
+            s = _seq(ix, n.value, helper, henv2, set(), depth + 1)
+            if s is not None and len(s.items) >= 2:
+                outs.append(_Seq(s.items, (helper, n)))
+    if not outs or len({tuple(o.tags()) for o in outs}) != 1:
+        return None
+    return outs[0]
+
+
+def check_ctrlorder(ix, rep):
+    n_sites = n_proved = 0
+    for f in ix.functions:
+        if VALUE_KW not in f.module.source or not f.module.relpath.startswith("pennylane/"):
+            continue
+        calls = [n for n in walk_shallow(f.node) if isinstance(n, ast.Call) and any(k.arg == VALUE_KW for k in n.keywords)
+                 and any(k.arg in WIRE_KW for k in n.keywords)]
+        if not calls:
+            continue
+        env, params = _func_env(ix, f, {}, 0)
+        for call in calls:
+            kw = {k.arg: k.value for k in call.keywords if k.arg}
+            wexpr = next(kw[k] for k in WIRE_KW if k in kw)
+            W, V = _seq(ix, wexpr, f, env, params), _seq(ix, kw[VALUE_KW], f, env, params)
+            nw, nv = (len(W.items) if W else 0), (len(V.items) if V else 0)
+            if nw < 2 and nv < 2:
+                continue  # not a flattening site: one source on each side
+            n_sites += 1
+            where = f"{f.module.relpath}:{f.qualname} [{norm(call.func)}(...)]"
+            rep.analysed(f.module.relpath, f.qualname)
+            if nw < 2 or nv < 2:
+                rep.unknown(CTRL, where, f"control wires {W.items if W else norm(wexpr)[:50]} / control values "
+                            f"{V.items if V else norm(kw[VALUE_KW])[:50]}: one side does not resolve to a concatenation of an outer and a base source")
+                continue
+            if len(W.items) != len(V.items) or sorted(W.tags()) != sorted(V.tags()):
+                rep.unknown(CTRL, where, f"wires {W.items} and values {V.items} are built from different sources")
+                continue
+            if W.tags() == V.tags():
+                n_proved += 1
+                rep.proved(CTRL, where, f"control wires = {W.items} and control values = {V.items}: same order of sources")
+                continue
+            # which side deviates from (OUTER, BASE) — the order every other site of the tree uses
+            dev, other = (V, W) if V.tags() != sorted(V.tags(), reverse=True) else (W, V)  # "OUTER" > "BASE"
+            what, owhat = ("control values", "control wires") if dev is V else ("control wires", "control values")
+            df, dn = dev.origin if dev.origin else (f, call)
+            rep.refuted(CTRL, df.module.relpath, df.qualname, dn,
+                        f"{df.qualname} concatenates the {what} as {dev.items} while {f.qualname} builds the {owhat} of the same "
+                        f"`{norm(call.func)}(...)` call as {other.items}: when nested controls are flattened, the control values of the outer "
+                        f"operator are attached to the wires of the inner one and vice versa, so the controlled operator does not have the "
+                        f"controlled-block matrix of its base", site=f"{f.module.relpath}:{f.qualname}")
+    return n_sites, n_proved
+
+
 def check(ctx):
     ix = ctx.index
     rep = Report("C03", "the gate-level shortcuts of operator arithmetic — each class's own adjoint() and pow(z) — are consistent with the "
@@ -220,6 +390,13 @@ def check(ctx):
     rep.rule(POW, "for every override of pow(self, z): one-parameter generator => returns [Cls(p * z, ...)]; name in self_inverses => every "
              "use of z is `z % 2`; a class reducing `z % N` claims U**N = 1, decided by exact matrix arithmetic where compute_matrix is a "
              "literal Gaussian-rational matrix (S, SX, ISWAP, the Paulis, CNOT, ...).")
+    rep.rule(CTRL, "for every call passing both `control=`/`control_wires=` and `control_values=` where a side is a concatenation (`a + b`, "
+             "`concatenate([a, b])`, a same-module helper returning such a concatenation of its parameters, inlined one level; array/cast/Wires "
+             "wrappers are transparent): classify each operand as OUTER (the function's own control parameter, self.control_*) or BASE "
+             "(op.control_*, self.base.control_*); the order of sources must be the same for wires and values => proved, different => refuted "
+             "naming the helper/statement that deviates from (OUTER, BASE), unresolved => unknown. The order of work wires is not significant.")
+    rep.assume("a parameter of the function that performs the flattening, or self.control_*, denotes the outer controls; <operator>.control_* of "
+               "another operator denotes the controls of the base being flattened")
     rep.assume("a class with generator() G and one parameter p is exp(i p G) with G != 0 (the repository's definition of generator)")
     rep.assume("constructor arguments are bound through the resolved __init__ signature; wires arguments are not part of the rules")
     rep.assume("E4 reads literal matrices exactly (1, 1j, 0.5 as written); matrices with opaque constants (1/sqrt(2), exp(i pi/4)) are not decided")
@@ -242,6 +419,9 @@ def check(ctx):
     n_adj, n_adj_gen, n_adj_si = check_adjoint(ix, rep, selfinv)
     n_pow, n_pow_gen, n_pow_si, n_period, n_period_proved = check_pow(ix, rep, selfinv)
 
+    n_sites, n_ctrl_proved = check_ctrlorder(ix, rep)
+    rep.floor("nested-control flattening sites", n_sites, 4)
+    rep.floor("flattening sites with the same order of sources for wires and values", n_ctrl_proved, 4)
     rep.floor("self_inverses names resolved to classes", len(selfinv), 11)
     rep.floor("operator classes overriding adjoint()", n_adj, 64)
     rep.floor("adjoint overrides of one-parameter-generator classes", n_adj_gen, 28)
